@@ -195,71 +195,7 @@ def run(ctx):
                                  're-read of the guarded cell is dominated by storing Some(Arc::new(CachedPlan::new(inputs, outputs, create_plan(inputs, outputs)))) under the same guard', p2.loc())
                     else:
                         ctx.inst(R, 'producer:unrecognised', False, 'returned plan produced by an unrecognised path (%s) - cannot show it matches this call\'s inputs/outputs' % (p2.callee if k2 == 'call' else p2[0]), g.loc())
-        # CachedPlan::matches depends on both inputs and outputs
-        m = fb.fn('rten::graph::planner::CachedPlan::matches')
-        if ctx.anchor(R, 'fn CachedPlan::matches', m is not None and m.has_mir()):
-            fns = [fb.fn(p) for p in fb.with_closures(m.path)]
-
-            def unit_facts(f, pa, pb_test):
-                """inside f (+ nested closures): length equality, membership search and duplicate check between the list
-                selected by pa (origin predicate) and the one selected by pb_test"""
-                sub = [fb.fn(p) for p in fb.with_closures(f.path)]
-                leneq = False
-                for b in f.bbs:
-                    for st in b['s']:
-                        if st[0] == '=' and st[2][0] == 'bin' and st[2][1] == 'Eq':
-                            oa, ob = f.origins(st[2][2]), f.origins(st[2][3])
-                            la = has_origin_call(oa, 're:::len$') or any(o[0] == 'len_of' for o in oa)
-                            lb = has_origin_call(ob, 're:::len$') or any(o[0] == 'len_of' for o in ob)
-                            if la and lb and ((pa(oa) and pb_test(ob)) or (pa(ob) and pb_test(oa))):
-                                leneq = True
-                member = False
-                for g in sub:
-                    for c in g.calls():
-                        if not call_is(c, 're:binary_search$|re:::contains$'):
-                            continue
-                        if g is f:
-                            member |= pb_test(f.origins(c.args[0]))
-                        elif any(o[0] == 'upvar' for o in g.origins(c.args[0])):
-                            # searched list is captured: look at what the closure was created with
-                            for b in f.bbs:
-                                for st in b['s']:
-                                    if st[0] == '=' and st[2][0] == 'agg' and st[2][1] == 'closure' and st[2][2] == g.path:
-                                        member |= any(pb_test(f.origins(o)) for o in st[2][4])
-                nodup = False
-                for c in f.calls():
-                    if call_is(c, ('rten::graph::planner::first_duplicate_by', 're:::is_sorted', 're:::dedup')) and pa(f.origins(c.args[0])):
-                        # the result must decide the outcome (is_none feeding the return value / a guard)
-                        nodup = True
-                return leneq, member, nodup
-
-            units = {}
-            # helper form: matches calls one of its own closures with (param list, self.<field>)
-            for c in m.calls():
-                if not (c.callee or '').startswith(m.path + '::{closure'):
-                    continue
-                h = fb.fn(c.callee)
-                tup = m.resolve_copy(c.args[1]) if len(c.args) > 1 else None
-                if h is None or tup is None or tup[0] != 'rv' or tup[1][0] != 'agg' or len(tup[1][4]) != 2:
-                    continue
-                o1, o2 = m.origins(tup[1][4][0]), m.origins(tup[1][4][1])
-                for pi, fld in ((1, 'inputs'), (2, 'outputs')):
-                    if has_param_origin(o1, pi) and has_param_origin(o2, 0, fld) and not has_param_origin(o2, 0, 'outputs' if fld == 'inputs' else 'inputs'):
-                        units[fld] = unit_facts(h, lambda og: has_param_origin(og, 1), lambda og: has_param_origin(og, 2))
-            # direct form: everything inside matches itself
-            for pi, fld in ((1, 'inputs'), (2, 'outputs')):
-                if fld not in units:
-                    units[fld] = unit_facts(m, lambda og, pi=pi: has_param_origin(og, pi), lambda og, fld=fld: has_param_origin(og, 0, fld))
-            dep = depends(m, 0)
-            need = {'param inputs': any(l == 2 for l, f in dep), 'param outputs': any(l == 3 for l, f in dep),
-                    'self.inputs': any(l == 1 and 'inputs' in f for l, f in dep), 'self.outputs': any(l == 1 and 'outputs' in f for l, f in dep)}
-            okb = all(u[0] and u[1] for u in units.values()) and all(need.values())
-            ctx.inst(R, 'matches:both-sets', okb,
-                     'matches compares each id list with the stored one: %s (length equality, membership search); the returned value depends (data/control) on %s'
-                     % ({k: (v[0], v[1]) for k, v in units.items()}, need), m.loc())
-            ctx.inst(R, 'matches:rejects-duplicates', all(u[2] for u in units.values()),
-                     'a list of the right length whose ids are all present but repeated must not match (otherwise the cache bypasses the planner\'s duplicate checks and run_plan panics): duplicate check present for %s'
-                     % {k: v[2] for k, v in units.items()}, m.loc())
+        matches_rules(ctx, fb, R)
         n = fb.fn('rten::graph::planner::CachedPlan::new')
         if ctx.anchor(R, 'fn CachedPlan::new', n is not None and n.has_mir()):
             aggs = [a for a in aggregates_of(fb, 'rten::graph::planner::CachedPlan') if a[0].path == n.path]
@@ -343,3 +279,72 @@ def run(ctx):
                     n_sites += 1
                     ctx.inst('C22.poison', k, k in ptab, 'panic-capable site inside the plan-cache critical section: %s -> %s' % (k, ptab.get(k, 'NOT IN TABLE (a panic here poisons the plan mutex for every other thread)')), fn2.loc(s['line']))
             ctx.count('poison_sites', n_sites)
+
+
+def matches_rules(ctx, fb, R):
+    # CachedPlan::matches depends on both inputs and outputs
+    m = fb.fn('rten::graph::planner::CachedPlan::matches')
+    if ctx.anchor(R, 'fn CachedPlan::matches', m is not None and m.has_mir()):
+        fns = [fb.fn(p) for p in fb.with_closures(m.path)]
+
+        def unit_facts(f, pa, pb_test):
+            """inside f (+ nested closures): length equality, membership search and duplicate check between the list
+            selected by pa (origin predicate) and the one selected by pb_test"""
+            sub = [fb.fn(p) for p in fb.with_closures(f.path)]
+            leneq = False
+            for b in f.bbs:
+                for st in b['s']:
+                    if st[0] == '=' and st[2][0] == 'bin' and st[2][1] == 'Eq':
+                        oa, ob = f.origins(st[2][2]), f.origins(st[2][3])
+                        la = has_origin_call(oa, 're:::len$') or any(o[0] == 'len_of' for o in oa)
+                        lb = has_origin_call(ob, 're:::len$') or any(o[0] == 'len_of' for o in ob)
+                        if la and lb and ((pa(oa) and pb_test(ob)) or (pa(ob) and pb_test(oa))):
+                            leneq = True
+            member = False
+            for g in sub:
+                for c in g.calls():
+                    if not call_is(c, 're:binary_search$|re:::contains$'):
+                        continue
+                    if g is f:
+                        member |= pb_test(f.origins(c.args[0]))
+                    elif any(o[0] == 'upvar' for o in g.origins(c.args[0])):
+                        # searched list is captured: look at what the closure was created with
+                        for b in f.bbs:
+                            for st in b['s']:
+                                if st[0] == '=' and st[2][0] == 'agg' and st[2][1] == 'closure' and st[2][2] == g.path:
+                                    member |= any(pb_test(f.origins(o)) for o in st[2][4])
+            nodup = False
+            for c in f.calls():
+                if call_is(c, ('rten::graph::planner::first_duplicate_by', 're:::is_sorted', 're:::dedup')) and pa(f.origins(c.args[0])):
+                    # the result must decide the outcome (is_none feeding the return value / a guard)
+                    nodup = True
+            return leneq, member, nodup
+
+        units = {}
+        # helper form: matches calls one of its own closures with (param list, self.<field>)
+        for c in m.calls():
+            if not (c.callee or '').startswith(m.path + '::{closure'):
+                continue
+            h = fb.fn(c.callee)
+            tup = m.resolve_copy(c.args[1]) if len(c.args) > 1 else None
+            if h is None or tup is None or tup[0] != 'rv' or tup[1][0] != 'agg' or len(tup[1][4]) != 2:
+                continue
+            o1, o2 = m.origins(tup[1][4][0]), m.origins(tup[1][4][1])
+            for pi, fld in ((1, 'inputs'), (2, 'outputs')):
+                if has_param_origin(o1, pi) and has_param_origin(o2, 0, fld) and not has_param_origin(o2, 0, 'outputs' if fld == 'inputs' else 'inputs'):
+                    units[fld] = unit_facts(h, lambda og: has_param_origin(og, 1), lambda og: has_param_origin(og, 2))
+        # direct form: everything inside matches itself
+        for pi, fld in ((1, 'inputs'), (2, 'outputs')):
+            if fld not in units:
+                units[fld] = unit_facts(m, lambda og, pi=pi: has_param_origin(og, pi), lambda og, fld=fld: has_param_origin(og, 0, fld))
+        dep = depends(m, 0)
+        need = {'param inputs': any(l == 2 for l, f in dep), 'param outputs': any(l == 3 for l, f in dep),
+                'self.inputs': any(l == 1 and 'inputs' in f for l, f in dep), 'self.outputs': any(l == 1 and 'outputs' in f for l, f in dep)}
+        okb = all(u[0] and u[1] for u in units.values()) and all(need.values())
+        ctx.inst(R, 'matches:both-sets', okb,
+                 'matches compares each id list with the stored one: %s (length equality, membership search); the returned value depends (data/control) on %s'
+                 % ({k: (v[0], v[1]) for k, v in units.items()}, need), m.loc())
+        ctx.inst(R, 'matches:rejects-duplicates', all(u[2] for u in units.values()),
+                 'a list of the right length whose ids are all present but repeated must not match (otherwise the cache bypasses the planner\'s duplicate checks and run_plan panics): duplicate check present for %s'
+                 % {k: v[2] for k, v in units.items()}, m.loc())
+
